@@ -183,6 +183,7 @@ def run(prog, R):
     import scanners
     scanners.exponent_markers(prog, R, "C15.3-exponent-markers")
     scanners.string_scanners_agree(prog, R, "C15.3-string-scanners-agree")
+    scanners.string_flags_check(prog, R, "C15.3-string-flags")
     # block comments: the opener is two characters; its `*` is consumed before the nesting loop starts (otherwise
     # `/*/` closes itself and the comment body is lexed as ordinary tokens)
     bcm = R.anchor(prog, "oq3_lexer::Cursor::block_comment")
@@ -196,6 +197,35 @@ def run(prog, R):
             okb = len(pre) == 1
             det = f"{len(pre)} bump(s) dominate the loop header bb{h} from outside the loop (expected exactly one: the opener's `*`)"
         R.ob("C15.4-block-comment-opener", "the `*` of `/*` is consumed before the nesting loop", okb, bcm.at, det)
+        # inside the loop every change of the nesting depth follows the consumption of the *second* character of
+        # `/*` or `*/` (else `/*/` counts as opener and closer at once)
+        if loops:
+            h, blocks = loops[0]
+            dl = [i for i, l in enumerate(bcm.locals) if l.get("name") == "depth"]
+            inloop_bumps = [bi for bi, t in bcm.calls() if (bcm.callee_of(t) or "").endswith("Cursor::bump") and bi in blocks]
+            upd = []
+            for bi, si, st in bcm.stmts_with_pos():
+                if bi in blocks and st["k"] == "assign" and st["rv"]["k"] == "binop" and st["rv"]["op"] in ("AddWithOverflow", "SubWithOverflow", "Add", "Sub"):
+                    a_ = st["rv"]["a"]
+                    if a_.get("k") in ("copy", "move") and dl and a_["pl"]["l"] == dl[0]:
+                        upd.append(bi)
+            badu = [u for u in upd if sum(1 for b_ in inloop_bumps if b_ in dom[u]) < 2]
+            R.ob("C15.4-block-comment-nesting", "depth changes only after both characters of `/*` / `*/` are consumed", len(upd) >= 2 and not badu, bcm.at,
+                 f"{len(upd)} depth updates in the loop, each dominated by the loop's bump and a second bump" if len(upd) >= 2 and not badu else f"{len(badu)} of {len(upd)} depth update(s) are not preceded by the consumption of the marker's second character")
+    # version header: all the whitespace between `OPENQASM` and the version number belongs to the header token
+    # (any amount, any flavour): openqasm_version() is dominated by eat_while(is_whitespace)
+    if at:
+        dom = at.dominators()
+        ov = [bi for bi, t in at.calls() if (at.callee_of(t) or "").endswith("Cursor::openqasm_version")]
+        ew = []
+        for bi, t in at.calls():
+            if (at.callee_of(t) or "").endswith("Cursor::eat_while"):
+                og = origins(prog, at, t["args"][1], max_depth=3) if len(t["args"]) > 1 else set()
+                if any(o[0] == "fnitem" and (o[1] or "").endswith("is_whitespace") for o in og):
+                    ew.append(bi)
+        okv = len(ov) == 1 and any(e in dom[ov[0]] for e in ew)
+        R.ob("C15.5-version-header-whitespace", "eat_while(is_whitespace) dominates openqasm_version()", okv, at.blocks[ov[0]].term["at"] if ov else at.at,
+             "all whitespace after OPENQASM is skipped before the version number is scanned" if okv else "the version scanner is not preceded by eat_while(is_whitespace): `OPENQASM  3;` with more than one blank (or a tab/newline mix) lexes differently from `OPENQASM 3;`")
     # ---- C15.3 sibling numeric arms
     if at:
         ps, _ = paths(prog, at.npath, 50000)
